@@ -209,3 +209,30 @@ func isW(x *core.Explorer, t *core.Term) func(*core.Term) bool {
 	w := x.StripWiden(t)
 	return func(y *core.Term) bool { return y == t || y == w }
 }
+
+// own: the event belongs to the explored function itself or to a helper that
+// did not exist when the rules were written (and was therefore inlined); events
+// inside explicitly inlined known functions (writeFatal, setReadRemaining,
+// deferred closures) are not "own".
+func own(ev *core.Event) bool {
+	return ev.Depth == 0 || ev.Fn == nil || !knownFuncs[core.FuncName(ev.Fn)]
+}
+
+// ctorStore: the store initialises a field of an object that the same function
+// has just created (composite literal / new, or the result of newConn): it
+// happens before the object is published.
+func ctorStore(st *ssa.Store) bool {
+	fa, ok := st.Addr.(*ssa.FieldAddr)
+	if !ok {
+		return false
+	}
+	switch x := fa.X.(type) {
+	case *ssa.Alloc:
+		return true
+	case *ssa.Call:
+		if f := x.Call.StaticCallee(); f != nil && f.Name() == "newConn" {
+			return true
+		}
+	}
+	return false
+}
